@@ -267,6 +267,12 @@ def sig_of(problem):
     return p[:90]
 
 
+DEBUG_NAMES = [b'a b', b'foo(int)', b'core::fmt<T>', b'acc.1', b'acc_1', b'acc$1', b'acc 1', b'acc-1', b'a"b', b'a\\b', b'x', b'X', b'X41', b'A',
+               b'operator new(unsigned long)', b'std::__1::basic_string<char>::~basic_string()', b'$_0', b'.Lanon.1', b'dup', b'dup',
+               b'\xc3\xa9t\xc3\xa9', b'a__b', b'a_b', b'a___b', b'_', b'__', b'main', b'memcpy', b'trap', b'f0', b'f1', b'%s%n', b'a,b', b'a;b',
+               b'a@plt', b'a*/b', b'a\nb', b"it's", b'<alloc::vec::Vec<T> as core::ops::Drop>::drop', b'legalstub$acc', b'1abc', b'0']
+
+
 def gen_case(ch, params):
     if params.get('big'):
         # many functions (so that several files are written at the same time), atomics with static offsets included
@@ -281,6 +287,15 @@ def gen_case(ch, params):
     ni = m.n_imported_funcs()
     if m.func_names is None:
         m.func_names = {ni + i: b'fn_%d' % i for i in range(len(m.funcs)) if ch.below(4)}
+        if ch.below(2):
+            # what name sections of real modules hold: demangled C++ / Rust names (blanks, parentheses, angle brackets, colons),
+            # compiler-generated names with dots and dollars, names that differ only in a byte outside [A-Za-z0-9_], names that
+            # look like the translator's own escapes, quotes and backslashes
+            for i in range(len(m.funcs)):
+                if ch.below(3):
+                    m.func_names[ni + i] = ch.pick(DEBUG_NAMES)
+                    if ch.below(4) == 0:
+                        m.func_names[ni + i] += b'%d' % ch.below(3)
     return mk, m, script, meta
 
 
